@@ -56,6 +56,11 @@ pub fn replay<W: Write>(prop: &str, line: &str, out: &mut W) {
             let f = s.dense().unwrap();
             emit_file(out, prop, &id, &f, f.windows(4).any(|w| w == b"ANIM"));
         }
+        Some("frame") => {
+            let s = crate::sparse::Sparse::parse_line(&get("len").unwrap(), &get("ext").unwrap());
+            let f = s.dense().unwrap();
+            emit_frame(out, prop, &id, &f);
+        }
         _ => panic!("bad replay line"),
     }
 }
@@ -279,10 +284,87 @@ fn file_cases<W: Write>(prop: &str, opts: &Opts, out: &mut W, rng: &mut Rng) {
     }
 }
 
+/// a lossy frame with losslessly compressed alpha (made by libwebp for fw x fh), placed as the single frame of an
+/// animation on a cw x ch canvas: the frame's ALPH stream has the dimensions of the FRAME
+pub fn alpha_frame_file(alph: &[u8], vp8: &[u8], cw: u32, ch: u32, fw: u32, fh: u32) -> Vec<u8> {
+    let mut anmf = vec![];
+    anmf.extend_from_slice(&0u32.to_le_bytes()[..3]);
+    anmf.extend_from_slice(&0u32.to_le_bytes()[..3]);
+    anmf.extend_from_slice(&(fw - 1).to_le_bytes()[..3]);
+    anmf.extend_from_slice(&(fh - 1).to_le_bytes()[..3]);
+    anmf.extend_from_slice(&[40, 0, 0]);
+    anmf.push(0);
+    anmf.extend(chunk(b"ALPH", alph));
+    anmf.extend(chunk(b"VP8 ", vp8));
+    riff(&[chunk(b"VP8X", &vp8x_payload(0x12, cw, ch)), chunk(b"ANIM", &[0, 0, 0, 0, 0, 0]), chunk(b"ANMF", &anmf)])
+}
+
+/// a single-frame animation whose frame carries a lossless ALPH: webpsan's verdict on the file, the reference's
+/// header-phase verdict on the alpha stream for the dimensions of the FRAME (read back from the ANMF header)
+pub fn emit_frame<W: Write>(out: &mut W, prop: &str, id: &str, file: &[u8]) {
+    let san = run_webp_bytes(file, false);
+    let mut rv = RefVerdict::Other(-1);
+    if let Some((_, anmf)) = split_chunks(file).into_iter().find(|(n, _)| n == b"ANMF") {
+        if anmf.len() >= 16 {
+            let le3 = |b: &[u8]| b[0] as u32 | (b[1] as u32) << 8 | (b[2] as u32) << 16;
+            let (fw, fh) = (1 + le3(&anmf[6..9]), 1 + le3(&anmf[9..12]));
+            // the frame's own chunks: a RIFF-less chunk sequence
+            let mut wrapped = b"RIFF\0\0\0\0WEBP".to_vec();
+            wrapped.extend_from_slice(&anmf[16..]);
+            if let Some((_, a)) = split_chunks(&wrapped).into_iter().find(|(n, _)| n == b"ALPH") {
+                if !a.is_empty() {
+                    rv = refdec::alpha_header(&a[1..], fw, fh);
+                }
+            }
+        }
+    }
+    let s = crate::sparse::Sparse::from_bytes(file);
+    writeln!(out, "{prop} id={id} kind=frame {} impl={} ref={}", s.line(), san.text(), if rv == RefVerdict::Ok { "ok" } else { "bitstream" }).unwrap();
+}
+
+/// experiment / generator: sub-canvas frames with lossless alpha
+pub fn alpha_frames<W: Write>(prop: &str, opts: &Opts, out: &mut W, rng: &mut Rng) {
+    let n: u64 = if opts.tier_thorough { 600 } else { 60 };
+    for i in 0..n {
+        if !opts.mine(i) {
+            continue;
+        }
+        let mut r = rng.fork(i ^ 0xA1FA);
+        let big = opts.tier_thorough && i % 3 == 0;
+        let (fw, fh) = if big { (100 + r.below(300) as u32, 100 + r.below(300) as u32) } else { (1 + r.below(80) as u32, 1 + r.below(80) as u32) };
+        let kind = *r.pick(&KINDS);
+        let img = image(&mut r, kind, fw, fh, true);
+        let Some(f) = refdec::encode_lossy(&img, fw, fh, 60.0, 1, r.below(3) as i32, *r.pick(&[100, 70])) else { continue };
+        let chunks = split_chunks(&f);
+        let (Some(a), Some(v)) = (chunks.iter().find(|(n, _)| n == b"ALPH"), chunks.iter().find(|(n, _)| n == b"VP8 ")) else { continue };
+        // the same frame on a canvas of its own size, and on larger canvases
+        let canvases = [(fw, fh), (fw + 1 + r.below(100) as u32, fh + 1 + r.below(100) as u32), (fw * 2 + 3, fh)];
+        if prop == "C08" {
+            for (cw, ch) in canvases {
+                let file = alpha_frame_file(&a.1, &v.1, cw, ch, fw, fh);
+                emit_file(out, prop, &format!("alpha-frame-{i}-{cw}x{ch}-{fw}x{fh}"), &file, true);
+            }
+        }
+        // a synthesised lossless alpha stream, valid for the FRAME's dimensions (transforms and meta prefix images sized by
+        // them), judged by the reference's header-phase decoder for those dimensions
+        let mut bw = synth::BitWriter::new();
+        let mut viol = synth::Violations::default();
+        synth::write_lossless_stream(&mut bw, &mut r, fw, fh, None, &mut viol);
+        let mut p = vec![1u8];
+        p.extend(bw.bytes);
+        p.extend(r.bytes(4));
+        for (cw, ch) in canvases {
+            let file = alpha_frame_file(&p, &v.1, cw, ch, fw, fh);
+            emit_frame(out, prop, &format!("alpha-frame-synth-{i}-{cw}x{ch}-{fw}x{fh}"), &file);
+        }
+    }
+}
+
 pub fn run<W: Write>(prop: &str, opts: &Opts, out: &mut W) {
     let mut rng = Rng::new(opts.seed ^ 0xC07);
     let thorough = opts.tier_thorough;
     synth_cases(prop, opts, out, &mut rng.fork(99));
+    alpha_frames(prop, opts, out, &mut rng.fork(55));
     if prop == "C08" {
         file_cases(prop, opts, out, &mut rng.fork(77));
     }
